@@ -205,6 +205,126 @@ DoInternal(h, i, pbOK, shape) ==
 
 P_Internal == up' /\ stored' = stored
 
+(* ---- The complete inventory of NATS subjects of a server ----------------- *)
+(* Every subscription a server makes on NATS (enumerated from the code:      *)
+(* server.go Start / leadershipAcquired, partition.go becomeLeader, raft.go, *)
+(* api.go, metadata.go, and the Raft transport of nats-on-a-log), with the   *)
+(* situation in which it exists (role) and what arrives there (kind):        *)
+(*   stream   a stream subject (DoPublishRaw)                                *)
+(*   request  a Liftbridge envelope decoded by a handler that then looks up  *)
+(*            the entities the request names                                  *)
+(*   reply    the server is the requester: acks on an ack inbox, responses on *)
+(*            a reply inbox                                                   *)
+(*   foreign  not a Liftbridge envelope (Raft transport connect requests)     *)
+(*   fatal    bootstrap-misconfiguration detection: a message from ANOTHER    *)
+(*            server is fatal by design - not part of the property            *)
+(* pat = the subject with namespace, server id, stream name and numbers       *)
+(* replaced by NS, ID, STREAM, N.  The harness records the real subscription  *)
+(* list of the embedded NATS server (LivePatterns) and checks/c14.py the      *)
+(* subscribe / request call sites of the source (SourceSites): a subject      *)
+(* added or dropped later shows up as drift of this table.                    *)
+Subjects == [
+  stream       |-> [pat |-> "STREAM",                           role |-> "partleader", kind |-> "stream"],
+  replreq      |-> [pat |-> "NS.STREAM.N.replicate",            role |-> "partleader", kind |-> "request"],
+  leaderoffset |-> [pat |-> "NS.STREAM.N.offset",               role |-> "partleader", kind |-> "request"],
+  serverinfo   |-> [pat |-> "NS.raft.metadata.info",            role |-> "always",     kind |-> "request"],
+  partstatus   |-> [pat |-> "NS.raft.metadata.status.ID",       role |-> "always",     kind |-> "request"],
+  notify       |-> [pat |-> "NS.notify.ID",                     role |-> "always",     kind |-> "request"],
+  join         |-> [pat |-> "NS.raft.metadata.join",            role |-> "always",     kind |-> "request"],
+  propagate    |-> [pat |-> "NS.raft.metadata.propagate",       role |-> "metaleader", kind |-> "request"],
+  raftaccept   |-> [pat |-> "NS.raft.metadata.ID.accept",       role |-> "always",     kind |-> "foreign"],
+  bootstrap    |-> [pat |-> "NS.raft.metadata.bootstrap",       role |-> "seed",       kind |-> "fatal"],
+  bootreply    |-> [pat |-> "NS.raft.metadata.bootstrap.reply", role |-> "seed",       kind |-> "fatal"],
+  ack          |-> [pat |-> "(ack inbox of one Publish call)",  role |-> "call",       kind |-> "reply"],
+  ackasync     |-> [pat |-> "NS.ack.X",                         role |-> "session",    kind |-> "reply"],
+  inforeply    |-> [pat |-> "(reply inbox of FetchMetadata)",   role |-> "peers",      kind |-> "reply"],
+  propreply    |-> [pat |-> "(reply inbox of a propagation)",   role |-> "metafollower", kind |-> "reply"],
+  statusreply  |-> [pat |-> "(reply inbox of a status query)",  role |-> "peers",      kind |-> "reply"],
+  joinreply    |-> [pat |-> "(reply inbox of a join request)",  role |-> "joining",    kind |-> "reply"],
+  replresp     |-> [pat |-> "(reply inbox of a fetch)",         role |-> "follower",   kind |-> "reply"],
+  offsetresp   |-> [pat |-> "(reply inbox of an offset query)", role |-> "follower",   kind |-> "reply"]]
+
+\* what a one-node server that leads the metadata group and a stream is subscribed to between calls
+LiveRoles == {"always", "seed", "metaleader", "partleader"}
+LivePatterns == {Subjects[n].pat : n \in {m \in DOMAIN Subjects : Subjects[m].role \in LiveRoles}}
+\* the subscribe / request call sites of the source: file:function:call:count
+SourceSites == {"api.go:dispatchAcks:Subscribe:1", "api.go:publishSync:SubscribeSync:1",
+                "metadata.go:fetchBrokerInfo:SubscribeSync:1", "metadata.go:propagateRequest:RequestWithContext:1",
+                "metadata.go:waitForPartitionLeader:RequestWithContext:1", "partition.go:becomeLeader:QueueSubscribe:1",
+                "partition.go:becomeLeader:Subscribe:2", "partition.go:sendLeaderOffsetRequest:Request:1",
+                "partition.go:sendReplicationRequest:Request:1", "raft.go:createRaftNode:Subscribe:1",
+                "raft.go:detectBootstrapMisconfig:Subscribe:2", "raft.go:setupMetadataRaft:Request:1",
+                "server.go:Start:Subscribe:3", "server.go:leadershipAcquired:QueueSubscribe:1"}
+\* the subjects the live part feeds (DoSubject); the stream subject is DoPublishRaw.  Not fed: the two
+\* bootstrap subjects (fatal by design) and the reply inboxes that only exist with a second server.
+FedSubjects == {"replreq", "leaderoffset", "serverinfo", "partstatus", "notify", "join", "propagate", "raftaccept",
+                "ack", "ackasync"}
+
+(* Entities a well-formed request names, by how they relate to what exists   *)
+(* on the receiving server: a stream that is absent / the empty name / a     *)
+(* stream that exists; a partition id that is the first / last of that       *)
+(* stream, the first id beyond it (count), negative, the extreme int32       *)
+(* values; a server id that is the receiver itself / unknown / empty; a      *)
+(* leader epoch that is zero / the current one / another / the maximum.      *)
+(* For acks `e` is the error code class: OK / a known error / an unknown     *)
+(* code / the extreme value.                                                  *)
+StreamRefs  == {"absent", "empty", "present"}
+PartRefs    == {"first", "last", "count", "neg", "max", "min"}
+ReplicaRefs == {"self", "unknown", "empty"}
+EpochRefs   == {"zero", "current", "other", "max"}
+PartOps     == {"shrink", "expand", "report", "pause", "resume", "readonly"}   \* propagated operations that name a partition
+NoEnt == [op |-> "none", s |-> "absent", p |-> "first", r |-> "self", e |-> "zero"]
+InRange(x) == x.s = "present" /\ x.p \in {"first", "last"}
+\* the dimensions a handler reads; the others stay at their default.  Propagated operations that would
+\* legitimately change the stream under test (an existing partition paused, made read-only, its leader
+\* reported) are left out: in range only ISR changes naming an unknown replica.
+EntsOf(h) ==
+  CASE h \in {"notify", "partstatus"} -> {[NoEnt EXCEPT !.s = s, !.p = p] : s \in StreamRefs, p \in PartRefs}
+    [] h = "serverinfo" -> {[NoEnt EXCEPT !.r = r] : r \in ReplicaRefs}
+    [] h = "replreq" -> {[NoEnt EXCEPT !.r = r, !.e = e] : r \in ReplicaRefs, e \in EpochRefs}
+    [] h = "leaderoffset" -> {[NoEnt EXCEPT !.e = e] : e \in EpochRefs}
+    [] h \in {"ack", "ackasync"} -> {[NoEnt EXCEPT !.s = s, !.e = e] : s \in StreamRefs, e \in EpochRefs}
+    [] h = "propagate" -> {x \in [op : PartOps, s : {"absent", "present"}, p : PartRefs, r : {"unknown"}, e : {"zero", "current"}] :
+                             /\ InRange(x) => x.op \in {"shrink", "expand"}
+                             /\ ~InRange(x) => x.e = "zero"} \cup {NoEnt}      \* NoEnt: the empty request
+    [] OTHER -> {NoEnt}          \* join: only the receiver's own id (anything else legitimately changes the cluster)
+
+\* the lookup a handler makes succeeds
+Resolves(x) == InRange(x)
+
+\* what comes back, as far as the code fixes it ("resp" = a response of the subject's response type).
+\* A late answer is recorded as "none" by the harness, hence the one-sided conformance below.
+Reply(h, i, pbOK, x) ==
+  LET ok == Unmarshal("pb", i, pbOK).k = "Ok" IN
+  CASE Subjects[h].kind = "foreign" -> "any"
+    [] h = "ack" -> IF ok THEN "ack" ELSE "error"        \* the Publish call returns the ack / fails
+    [] ~ok -> "none"
+    [] h = "ackasync" -> IF x.e = "zero" THEN "ack" ELSE "error"
+    [] h = "serverinfo" -> IF x.r = "self" /\ PayloadLen(i) > 0 THEN "none" ELSE "resp"   \* no payload = the empty id
+    [] h = "partstatus" -> IF Resolves(x) THEN "exists" ELSE "missing"
+    [] h \in {"notify", "replreq"} -> "none"
+    [] h = "propagate" /\ x.op = "none" -> "none"          \* the empty request names CREATE_STREAM without its payload: dropped
+    [] OTHER -> "resp"
+
+DoSubject(h, i, pbOK, x) ==
+  /\ up
+  /\ up' = (Unmarshal("pb", i, pbOK).k # "Crash")
+  /\ stored' = stored
+  /\ obs' = [a |-> "Subject", k |-> "sent", same |-> TRUE, reply |-> Reply(h, i, pbOK, x)]
+
+\* conformance of a recorded step (one-sided in the reply: timing can only lose an answer)
+SubjectConforms(h, i, pbOK, x) ==
+  /\ up' = (Unmarshal("pb", i, pbOK).k # "Crash")
+  /\ stored' = stored
+  /\ h \in FedSubjects /\ x \in EntsOf(h)
+  /\ LET r == Reply(h, i, pbOK, x) IN r = "any" \/ obs'.reply \in {"none", r}
+
+\* property level: the server stays up, the stream's log is untouched, and bytes that are not a
+\* well-formed ack are never handed to a publisher as its ack
+P_Subject(h, i, pbOK) ==
+  /\ P_Internal
+  /\ (h \in {"ack", "ackasync"} /\ obs'.reply = "ack") => (Valid(i) /\ pbOK)
+
 P_Same == UNCHANGED <<up, stored>>
 
 \* state invariant of the running server
